@@ -17,10 +17,17 @@
      apiVersion: first resource list in discovery order that holds the kind); kinds are
      compared exactly (plural / short names and letter case are not modelled).
 
+   * Another writer on the cluster (C13_CModel / C13_CSpec, theorems named C13_conc_...): the API
+     server (resourceVersion per object, changed by every write; an Update with an outdated one
+     is refused) and the other writer (one write right before each mutating request of the
+     operation; it sets a data key or creates the object, it never deletes) are an oracle
+     played by a layer of the harness; retry.RetryOnConflict is 4 attempts, its sleeps are
+     not modelled.
+
    The model follows the tree AFTER the repair of F12 (YAML integers reached
    Unstructured.DeepCopy as Go int: panic); there is no known-finding trigger. *)
 From Coq Require Import String.
-From Verif Require Import Common Json C13_Model C13_Spec C13_Proofs C13_GModel C13_GSpec C13_GProofs.
+From Verif Require Import Common Json C13_Model C13_Spec C13_Proofs C13_GModel C13_GSpec C13_GProofs C13_CModel C13_CSpec C13_CProofs.
 
 (* the whole property on the model: for every initial cluster, every stream of
    documents and every projection of objects, one hook run satisfies the predicate *)
@@ -200,6 +207,54 @@ Theorem C13_g_all_or_nothing : forall d c ds,
 Proof. intros d c ds H. rewrite (g_all_or_nothing d c ds H). split; reflexivity. Qed.
 Print Assumptions C13_g_all_or_nothing.
 
+(* ---------- another writer on the cluster ---------- *)
+
+(* the whole property there: for every initial cluster, every stream of documents, every
+   queue of writes the other writer has ready per document and every projection, one hook
+   run satisfies the predicate: each operation applied once, in order, on the LATEST state
+   (every write of the other writer that happened is in place as the writer made it), or
+   given up with a Conflict after the retry budget with nothing applied *)
+Theorem C13_conc_run_meets_spec : forall proj c ds qs,
+  P_conc attempts proj c ds qs (fst (chandle_run c ds qs)) (snd (chandle_run c ds qs)) = true.
+Proof. intros proj c ds qs. pose proof (chandle_run_meets_spec proj c ds qs) as H. now destruct (chandle_run c ds qs). Qed.
+Print Assumptions C13_conc_run_meets_spec.
+
+(* one operation, for EVERY queue (every number of interfering writes): m writes happened,
+   m is at most what was ready, and either the cluster is the documented effect of the
+   operation on the state with exactly those m writes applied (and the error is the
+   documented one) - no lost update, nothing computed from a stale object - or the operation
+   reports a Conflict, the cluster holds those m writes and nothing else, and m is at least
+   the 4 attempts of the retry budget *)
+Theorem C13_conc_latest_state_or_budget : forall s o q d,
+  cl_equiv (st_objs s) d ->
+  match cexec_op s o q with (s', _, e, m) => op_ok o q d s' e m end.
+Proof. exact cexec_op_ok. Qed.
+Print Assumptions C13_conc_latest_state_or_budget.
+
+(* the retry loop, whatever is retried: with [more] further attempts allowed, a loop of
+   attempts that each either finish on the state as it is / after one more write, or are
+   refused after one more write, ends done on the state after the m writes that happened, or
+   with a Conflict after more + 1 refused attempts *)
+Theorem C13_conc_retry_loop : forall k o Inv fn,
+  attempt_ok k o Inv fn ->
+  forall more y d y' e, Inv y -> cl_equiv (st_objs (y_store y)) d -> retry more fn y = (y', e) -> loop_ok k o more y d y' e.
+Proof. exact retry_ok. Qed.
+Print Assumptions C13_conc_retry_loop.
+
+(* the function executeFilterOperation retries - with its Get INSIDE - is such an attempt,
+   and so is the one of CreateOrUpdate while the object exists *)
+Theorem C13_conc_attempts : forall k f sub im obj,
+  attempt_ok k (OPatch k (PJq f) sub im) (fun _ => True) (filter_attempt k f sub im) /\
+  attempt_ok (key_of_object obj) (OCreate COrUpdate obj) (holds (key_of_object obj)) (update_attempt (key_of_object obj) obj).
+Proof. intros. split; [apply filter_attempt_ok | apply update_attempt_ok]. Qed.
+Print Assumptions C13_conc_attempts.
+
+(* optimistic concurrency of the store: a write gives the object a resourceVersion that an
+   Update prepared before the write does not carry *)
+Theorem C13_conc_stale_refused : forall k o s, N.eqb (ver k s) (ver k (st_put k o s)) = false.
+Proof. intros. rewrite ver_put. apply stale_refused. Qed.
+Print Assumptions C13_conc_stale_refused.
+
 (* ---------- non-vacuity and sanity (computed examples, not theorems) ---------- *)
 
 Definition s (x : string) : json := JStr (B x).
@@ -284,3 +339,28 @@ Proof.
   repeat split; try (vm_compute; reflexivity); try discriminate;
     try (vm_compute; intuition discriminate).
 Qed.
+
+(* ---------- non-vacuity for the C13_conc_... theorems ---------- *)
+
+Definition jq_hook : op := OPatch k1 (PJq (JQSet [B "data"; B "fromHook"] (s "yes"))) [] false.
+Definition other (i : string) : write := WSet (B "other") (s i).
+
+(* the hypothesis of latest_state_or_budget is met; a jq patch racing with 1 write is applied
+   once on top of it after one refused Update (Get, Update, Get, Update); racing with 3 it
+   succeeds at the 4th attempt; racing with 4 or 6 it gives up with a Conflict after 4
+   attempts and the cluster holds the 4 writes only; a merge patch lets one write in and is
+   applied on top of it; and the stream goes on after a Conflict *)
+Example C13_conc_hyp_met :
+  cl_equiv (st_objs (mkStore c_ex [])) c_ex /\
+  cexec_op (mkStore c_ex []) jq_hook [other "1"]
+  = (mkStore [(k1, cm "cm1" [(B "a", s "1"); (B "fromHook", s "yes"); (B "other", s "1")])] [(k1, 2%N); (k1, 1%N)],
+     [(VGet, k1, []); (VUpdate, k1, []); (VGet, k1, []); (VUpdate, k1, [])], None, 1) /\
+  (let '(_, calls, e, m) := cexec_op (mkStore c_ex []) jq_hook [other "1"; other "2"; other "3"] in
+   (length calls, e, m) = (8, None, 3)) /\
+  (let '(st, calls, e, m) := cexec_op (mkStore c_ex []) jq_hook [other "1"; other "2"; other "3"; other "4"; other "5"; other "6"] in
+   (st_objs st, length calls, e, m) = ([(k1, cm "cm1" [(B "a", s "1"); (B "other", s "4")])], 8, Some EConflict, 4)) /\
+  (let '(st, _, e, m) := cexec_op (mkStore c_ex []) (OPatch k1 (PMerge (JObj [(B "data", JObj [(B "b", s "2")])])) [] false) [other "1"; other "2"] in
+   (st_objs st, e, m) = ([(k1, cm "cm1" [(B "a", s "1"); (B "b", s "2"); (B "other", s "1")])], None, 1)) /\
+  (let '(r, ms) := chandle_run c_ex [DOp jq_hook; DOp (OCreate CPlain (cm "cm2" []))] [[other "1"; other "2"; other "3"; other "4"]] in
+   (r_errors r, ms, map fst (r_cluster r)) = ([EConflict], [4; 0], [k1; B "ConfigMap/default/cm2"])).
+Proof. split; [apply equiv_refl|]. repeat split; vm_compute; reflexivity. Qed.
